@@ -14,7 +14,7 @@ from rv.harness import mod
 LEVEL = "exploration"
 RULE = ("(a) lower_bound: bounded-exhaustive over all sorted vectors of 1..4 bins over 0..G and remaining totals 0..8 (G = 5 quick, 6 thorough; sharded), random vectors with up to 16 bins and values up to 2^49, "
         "both values of the sorted flag, list/tuple/ndarray; (b) generate_tree: item lists (n <= 10) with zeros and repeats, integer and fractional windows including empty and inverted ones, "
-        "named and unnamed items; (c) all_combinations: pairs of bins-arrays with 1..5 bins, ties and empty bins, both managers; (d) in situ: contracts on the same three extension points while "
+        "named and unnamed items, plus windows tightened by the caller between yields (soundness at yield time); (c) all_combinations: pairs of bins-arrays with 1..5 bins, ties and empty bins, both managers; (d) in situ: contracts on the same three extension points while "
         "complete greedy / ckk / snp / rnp solve generated instances. Non-trivial: R > 0 and not all sums equal (a); window excludes >= 1 subset and admits >= 1 (b); >= 2 distinct pairings (c); "
         "distinct on the call's arguments")
 ASSUMPTIONS = ["'best reachable value' = optimum over non-negative integer additions of the remaining total (the all-ones multiset attains it)",
@@ -94,6 +94,41 @@ def judge_tree(case, ctx):
 
 
 # ------------------------------------------------------------------ (c) all_combinations
+def judge_tree_dynamic(case, ctx):
+    """
+    The caller tightens the window while iterating (as snp does): every yielded sub-collection must lie within the bounds IN FORCE WHEN IT IS YIELDED, be a
+    sub-collection of the items and not repeat. (Completeness is only defined for a static window and is judged by judge_tree.)
+    """
+    ctx.evaluated()
+    T = mod("prtpy.inclusion_exclusion_tree").InExclusionBinTree
+    vals = case["values"]
+    names = [f"n{i}" for i in range(len(vals))]
+    vmap = dict(zip(names, vals))
+    tree = T(names, vmap.__getitem__, upper_bound=case["hi"], lower_bound=case["lo"])
+    steps = {int(a): b for a, b in case["tighten"]}
+    seen, n_y = set(), 0
+    try:
+        for sub in tree.generate_tree():
+            lo, hi = tree.lower_bound, tree.upper_bound
+            tot = sum(vmap[x] for x in sub)
+            key = tuple(sorted(sub))
+            if not (lo <= tot <= hi):
+                ctx.violation("tree_yielded_outside_the_bounds_in_force", "generate_tree", case, {"yield": n_y, "sub": list(sub), "total": tot, "lower": lo, "upper": hi})
+                return
+            if key in seen or len(set(sub)) != len(sub) or any(x not in vmap for x in sub):
+                ctx.violation("tree_repeated_or_invented_a_subcollection", "generate_tree", case, {"yield": n_y, "sub": list(sub)})
+                return
+            seen.add(key)
+            if n_y in steps:
+                tree.lower_bound = max(tree.lower_bound, steps[n_y])       # tighten from below, never beyond the upper bound
+            n_y += 1
+    except Exception as e:
+        ctx.violation("exception", "generate_tree", case, {"exc": repr(e)[:200]})
+        return
+    ctx.held(key=("treedyn", tuple(vals), case["lo"], case["hi"], repr(case["tighten"])), nontrivial=n_y >= 2 and bool(steps), cls="generate_tree/tightened_while_iterating",
+             sample={"case": case, "yields": n_y})
+
+
 def judge_comb(case, ctx):
     ctx.evaluated()
     A = C.algos()
@@ -269,6 +304,11 @@ def run_shard(spec, rng, ctx):
         judge_lb({"kind": "lb", "objective": rng.choice(LB_NAMES), "sums": sums, "R": R}, ctx)
         judge_tree(draw_tree(rng), ctx)
         judge_comb(draw_comb(rng), ctx)
+        t = draw_tree(rng)
+        if t["values"] and t["lo"] <= t["hi"]:
+            tot = sum(t["values"])
+            judge_tree_dynamic({"kind": "treedyn", "values": t["values"], "lo": t["lo"], "hi": t["hi"],
+                                "tighten": [[rng.randint(0, 12), min(t["hi"], t["lo"] + rng.randint(1, max(1, tot // 3 + 1)))] for _ in range(rng.randint(1, 3))]}, ctx)
     # (d) in situ
     insitu(spec, rng, ctx, end)
 
@@ -281,6 +321,8 @@ def replay(case, ctx):
         judge_tree(case, ctx)
     elif kind == "comb":
         judge_comb(case, ctx)
+    elif kind == "treedyn":
+        judge_tree_dynamic(case, ctx)
     else:
         from rv.monitors import Contracts
         con = Contracts(mode="record").install()
